@@ -1,6 +1,7 @@
 import XsVerif.Driver.Util
 import XsVerif.Model.Paths
 import XsVerif.Model.Localise
+import XsVerif.Model.PathsNs
 open Lean XsVerif.Driver XsVerif.Paths
 
 namespace XsVerif.Driver.C19
@@ -115,12 +116,44 @@ def handleLazy (j : Json) : Except String Json := do
         ("sel", Json.arr ((selectAbs t pp).map posJson).toArray),
         ("complete", completeAlong st t pos), ("pre", pre st t)]
 
+/-! ### the path as a user reads it: expanded names, written with one map, read with another -/
+partial def parseQT (j : Json) : Except String XsVerif.PathsNs.QT := do
+  let q ← getArr j "q"
+  let ch ← (← getArr j "c").toList.mapM parseQT
+  if h : q.size = 2 then return .node ⟨← q[0].getStr?, ← q[1].getStr?⟩ ch else throw "q"
+
+def rstepStr (s : XsVerif.PathsNs.RStep) : String :=
+  match s.pos with
+  | none => pnameStr s.name
+  | some k => pnameStr s.name ++ "[" ++ toString k ++ "]"
+
+/-- `{"op":"nspath","tree":…,"ns":[[p,u],…],"read":[[p,u],…],"pos":[[…],…]}`: per position the path text written
+    with `ns` (`getPath` on expanded names, `renderPath`) and what a reader with the map `read` selects
+    (`userSelect`; null = the path cannot be read) -/
+def handleNsPath (j : Json) : Except String Json := do
+  let t ← parseQT (← j.getObjVal? "tree")
+  let m ← parsePairs (← j.getObjVal? "ns")
+  let m' ← parsePairs (← j.getObjVal? "read")
+  let ps ← (← getArr j "pos").toList.mapM parseNats
+  let out := ps.map fun p =>
+    match XsVerif.PathsNs.getPath t p with
+    | none => Json.mkObj [("path", Json.null), ("sel", Json.null)]
+    | some pp =>
+      let rp := XsVerif.PathsNs.renderPath m pp
+      let text := "/" ++ pnameStr rp.1 ++ String.join (rp.2.map fun s => "/" ++ rstepStr s)
+      let sel := match XsVerif.PathsNs.userSelect m' t rp with
+        | none => Json.null
+        | some l => Json.arr (l.map posJson).toArray
+      Json.mkObj [("path", text), ("sel", sel)]
+  return Json.mkObj [("r", Json.arr out.toArray)]
+
 /-- request: a tree and a list of positions; answer per position: the path text and what it selects -/
 def handle (j : Json) : Except String Json := do
   if (j.getObjVal? "render").toOption.isSome then return ← handleRender j
   match j.getObjValAs? String "op" with
   | .ok "localise" => return ← handleLocalise j
   | .ok "lazy" => return ← handleLazy j
+  | .ok "nspath" => return ← handleNsPath j
   | _ => pure ()
   let t ← parseT (← j.getObjVal? "tree")
   let ps ← (← getArr j "pos").toList.mapM fun p => do
